@@ -156,6 +156,10 @@ class Highlighter(object):
                 if diff > 1:
                     lines += [""] * (diff - 1)
 
+                if current_type is None:
+                    # Nothing but a line continuation so far
+                    current_type = self.TOKEN_DEFAULT
+
                 line += "<{}>{}</>".format(
                     self._theme[current_type], buffer.rstrip("\n")
                 )
